@@ -298,10 +298,14 @@ func isReferringSetD(v ssa.Value, depth int) bool {
 		return true // a *Template method's own receiver
 	}
 	_, n2, fld2 := fieldLoadBase(tplv)
-	if n2 == nil || fld2 != "template" {
+	if n2 == nil {
 		return false
 	}
-	return n2.Obj().Name() == "Parser" || n2.Obj().Name() == "ExecutionContext"
+	if fld2 == "template" {
+		return n2.Obj().Name() == "Parser" || n2.Obj().Name() == "ExecutionContext"
+	}
+	// a node field that remembers the template the node was parsed in
+	return liftProg != nil && capturedParserTemplate(liftProg, n2.Obj().Name(), fld2)
 }
 
 // R-C03-FILTER
